@@ -10,11 +10,13 @@ from harness.drivers import codec
 
 MUTATIONS = {"mode_flag_not_set": "PackOK", "ext_count_short": "PackOK", "times_swapped": "RoundTrip"}
 QUICK = {"U32Vals": "U32Quick", "U64Vals": "U64Quick", "Keys": "KeysTwo", "Vals": "ValsTwo"}
+TINY = {"U32Vals": "U32Quick", "U64Vals": "U64One", "Keys": "KeysOne", "Vals": "ValsTwo"}      # sensitivity runs
 FULL = {"U32Vals": "U32Full", "U64Vals": "U64Full", "Keys": "KeysTwo", "Vals": "ValsFull"}
 
 
 def cfg(subst, mutation="none", invariants=(), spec="Spec", fix=True):
-    return (cfg_text(spec=spec, constants={"MaxExt": 2, "Mutation": mutation, "FixExtOrder": fix}, invariants=invariants)
+    return (cfg_text(spec=spec, constants={"MaxExt": 1 if subst is TINY else 2, "Mutation": mutation, "FixExtOrder": fix},
+                     invariants=invariants)
             + "CONSTANTS\n" + "".join("  %s <- %s\n" % kv for kv in subst.items()))
 
 
@@ -32,11 +34,15 @@ def render(attrs, n):
     return values, ext
 
 
+def show(b):
+    return bytes(x for x in b[:40] if x >= 0) + (b"..." if len(b) > 40 else b"")
+
+
 def describe(rec):
     return "attributes %s ext %s -> flags %s, decoded %s ext %s, decoded flags %s" % (
         rec["input"]["values"], rec["input"]["ext"], hex(codec.unlimbs(rec["flags"])),
         {k: codec.unlimbs(v[0]) for k, v in rec["dec"].items() if k != "ext" and v},
-        [(bytes(k), bytes(v)) for k, v in rec["dec"]["ext"]], hex(codec.unlimbs(rec["rflags"])))
+        [(show(k), show(v)) for k, v in rec["dec"]["ext"][:8]], hex(codec.unlimbs(rec["rflags"])))
 
 
 BOUND32 = [0, 1, 0o644, 0o100644, 2 ** 16 - 1, 2 ** 16, 2 ** 31 - 1, 2 ** 31, 2 ** 32 - 2, 2 ** 32 - 1]
@@ -88,7 +94,33 @@ def random_case(rnd):
     return values, ext
 
 
+def judge(c, batch):
+    fields = ("attrs", "fractional", "flags", "wtoks", "rflags", "rtoks", "dec", "aborted")
+    res, _ = c.trace("SftpAttr_Trace", [{k: rec[k] for k in fields} for rec in batch],
+                     cfg(TINY, invariants=["Report"], spec="TSpec"))
+    if len(res["DONE"]) != len(batch):
+        raise Machinery("trace validation consumed %d of %d traces" % (len(res["DONE"]), len(batch)))
+    c.traces += len(batch)
+    c.verdicts(res["VERDICT"], lambda tid, clause, row: (
+        clause, "%s fails: %s%s" % (clause, describe(batch[tid - 1]),
+                                    " [%s: %s]" % (batch[tid - 1]["aborted"], batch[tid - 1]["error"]) if batch[tid - 1]["aborted"] else ""),
+        batch[tid - 1]["input"]))
+    return {row[1] for row in res["VERDICT"]}
+
+
+def replay(c, rp):
+    """bin/check C33 --replay replays/C33/<key>.json : the recorded attribute set again"""
+    import ast
+    rec = codec.run_attr_roundtrip(rp["values"], [(ast.literal_eval(k), ast.literal_eval(v)) for k, v in rp["ext"]])
+    c.case(key="replay", sample={k: rec[k] for k in ("input", "flags", "wtoks", "dec")})
+    judge(c, [rec])
+    c.rule = "replay of one recorded attribute set"
+
+
 def run(c):
+    if getattr(c, "replay_file", None):
+        import json
+        return replay(c, json.load(open(c.replay_file))["replay"])
     subst = QUICK if c.quick else FULL
     invs = ["ReaderInside", "PackOK", "FlagsFirst", "AbsentStaysAbsent", "RoundTrip"]
     # ---- M
@@ -97,9 +129,10 @@ def run(c):
     if not cases or len(cases) * 13 != r.distinct:
         raise Machinery("expected one CASE per attribute set: %d cases, %d states" % (len(cases), r.distinct))
     # the pinned _unpack (value slot evaluated first) as a model: the round trip invariant must fail
-    c.mc("SftpAttr", cfg(QUICK, invariants=invs, fix=False), expect="RoundTrip", name="faithful to pinned _unpack (names/values swapped)")
-    for mut, inv in MUTATIONS.items():
-        c.mc("SftpAttr", cfg(QUICK, mutation=mut, invariants=invs), expect=inv, name="mutation " + mut)
+    c.mc("SftpAttr", cfg(TINY, invariants=invs, fix=False), expect="RoundTrip", workers=4,
+         name="faithful to pinned _unpack (names/values swapped)")
+    for mut, inv in list(MUTATIONS.items())[:1 if c.quick else None]:
+        c.mc("SftpAttr", cfg(TINY, mutation=mut, invariants=invs), expect=inv, name="mutation " + mut, workers=4)
     # ---- RP: spec -> code
     batch, expect = [], []
     presence = set()
@@ -120,21 +153,15 @@ def run(c):
         rec = codec.run_attr_roundtrip(values, ext)
         batch.append(rec)
         c.case(key=repr((sorted(values.items()), ext)))
-    fields = ("attrs", "fractional", "flags", "wtoks", "rflags", "rtoks", "dec")
-    res, _ = c.trace("SftpAttr_Trace", [{k: rec[k] for k in fields} for rec in batch],
-                     cfg(QUICK, invariants=["Report"], spec="TSpec"))
-    if len(res["DONE"]) != len(batch):
-        raise Machinery("trace validation consumed %d of %d traces" % (len(res["DONE"]), len(batch)))
-    c.traces += len(batch)
-    flagged = {row[1] for row in res["VERDICT"]}
+    flagged = judge(c, batch)
     for tid in range(1, n_rp + 1):
         rec, (attrs, flags, wire) = batch[tid - 1], expect[tid - 1]
         same = (rec["flags"] == flags and rec["rflags"] == flags and rec["wtoks"] == wire and rec["rtoks"] == wire
                 and rec["dec"] == attrs)
         if same == (tid in flagged):
             raise Machinery("replay comparison and trace verdict disagree on %s" % describe(rec))
-    c.verdicts(res["VERDICT"], lambda tid, clause, row: (
-        clause, "%s fails: %s" % (clause, describe(batch[tid - 1])), batch[tid - 1]["input"]))
+    if flagged and not (c.violations or c.known_hits or c.conf):
+        raise Machinery("TLC flagged %d traces but no verdict was registered" % len(flagged))
     c.rule = ("every attribute set over the 32 presence combinations x boundary values x extended maps of 0-2 entries "
               "(%d sets, TLC-enumerated) + seeded random sets with full-range values, maps up to 6 entries, half pairs and "
               "fractional times; distinct = distinct attribute sets" % len(cases))
